@@ -38,11 +38,23 @@ def resolve(qualname):
     return getattr(klass, meth)
 
 
+def _params_of(qualname):
+    if qualname.startswith("lemma:"):
+        return dsl.LEMMAS[qualname[6:]]["params"]
+    return dsl.CONTRACTS[qualname].params
+
+
 def runtime_contract(qualname, args):
     """Evaluate requires / call / ensures on real objects.  -> None if the precondition
     does not hold (input not applicable), else (ok: bool, detail)."""
-    K = dsl.CONTRACTS[qualname]
     c = dsl.RunCtx(resolver=resolve)
+    if qualname.startswith("lemma:"):
+        try:
+            good = bool(dsl.LEMMAS[qualname[6:]]["fn"](c, *args))
+        except Exception as exc:  # noqa: BLE001
+            return False, f"raised {type(exc).__name__}: {exc}"
+        return good, "lemma evaluated on the real functions"
+    K = dsl.CONTRACTS[qualname]
     if K.requires and not K.requires(c, *args):
         return None
     fn = resolve(qualname)
@@ -109,9 +121,8 @@ def domain(sort, quick=True):
 
 
 def runtime_inputs(qualname, quick=True, cap=4000):
-    K = dsl.CONTRACTS[qualname]
     try:
-        doms = [domain(s, quick) for s in K.params.values()]
+        doms = [domain(s, quick) for s in _params_of(qualname).values()]
     except KeyError:
         return []
     total = 1
@@ -131,9 +142,8 @@ def concretise(qualname, model):
     """Counter-model -> real arguments (or None when the model does not describe a
     well-typed input, e.g. a mid-loop state)."""
     ns = repo.namespace()
-    K = dsl.CONTRACTS[qualname]
     args = []
-    for name, sort in K.params.items():
+    for name, sort in _params_of(qualname).items():
         base = sort.rstrip("?")
         if base == "Perm":
             v = model.get(name)
